@@ -38,7 +38,7 @@ ANCHORS = ['Table.delimited_self', 'Table._extract_data_from_tsv', 'Table.from_t
 REQUIRED = ['import_cli_with_sample_mapping_file', 'export_column_name_without_hash', 'hierarchical_category_round_trips', 'import_from_tsv_with_mappings', 'ids_with_line_boundary_characters', 'text_category_round_trips', 'last_sample_named_like_a_metadata_column', 'scale_exports', 'ids_with_blanks_at_their_edges', 'non_finite_value_in_last_column', 'export_legacy_function', 'export_other_column_name',
             'import_legacy_convert_table_to_biom', 'export_asked_for_absent_metadata', 'exported_again_after_change', 'export_to_tsv', 'export_str', 'export_direct_io',
             'export_cli', 'import_from_tsv_lines', 'import_from_tsv_handle',
-            'import_load_table', 'import_load_table_gz', 'import_load_table_crlf', 'import_from_tsv_lines_crlf',
+            'import_load_table', 'import_load_table_gz', 'import_load_table_crlf', 'import_from_tsv_lines_crlf', 'import_from_tsv_keywords',
             'import_parse_table_lines', 'import_cli_json', 'import_cli_hdf5',
             'with_md_column', 'single_sample', 'single_observation',
             'exponent_in_last_column', 'layout_csc_seen',
@@ -490,6 +490,11 @@ def run_case(ctx, index):
                 list(lines), None, None, proc)),
             ('from_tsv_handle', 'list', lambda: biom.Table.from_tsv(
                 io.StringIO(text), None, None, proc)),
+            # the reader's own keywords spelled out (an identity pre-parser
+            # for the metadata column, the delimiter, the element type)
+            ('from_tsv_keywords', 'list', lambda: biom.Table.from_tsv(
+                list(lines), None, None, proc, md_parse=lambda x: x,
+                **({'delim': '\t'} if index % 2 else {'dtype': float}))),
             ('load_table', 'raw', lambda: biom.load_table(path)),
             ('load_table_gz', 'raw', lambda: biom.load_table(gz)),
             ('load_table_crlf', 'raw', lambda: biom.load_table(crlf)),
